@@ -32,7 +32,8 @@ def ser_value(e,run,v):
     if isinstance(v,VecO): return jarr([ser_value(e,run,x) for x in v.items])
     if isinstance(v,MapO):
         if v.is_set: return jarr([ser_value(e,run,v.e[i][0]) for i in map_order(run,v)])
-        return jobj([(ser_key(e,run,k),ser_value(e,run,x)) for k,x in v.e])
+        # entries in the map's iteration order (key order for a BTreeMap; for a HashMap whatever order the run is exploring)
+        return jobj([(ser_key(e,run,v.e[i][0]),ser_value(e,run,v.e[i][1])) for i in map_order(run,v)])
     if isinstance(v,Agg):
         if v.ty=='Option': return jnull() if v.vname=='None' else ser_value(e,run,v.f[0])
         if v.ty=='()': return jarr([ser_value(e,run,x) for x in v.f])
@@ -123,6 +124,57 @@ def m_std_serialize(e,run,a,f):
         raise Unsupported('flatten of '+repr(v)[:60])
     return ser_value(e,run,a[0])
 def m_to_value(e,run,a,f): return ser_value(e,run,a[0])
+# ---- serde_json's text writers: to_string / to_vec / to_writer (+ _pretty)
+def json_text(v,pretty=False,ind=0):
+    """bytes of a serde_json::Value tree in the member order it has (compact, or serde_json's pretty form: two-space indent);
+    concrete content only"""
+    import json as _j
+    v=deref(v); k=v.vname
+    if k=='Null': return b'null'
+    if k=='Bool':
+        b=v.f[0]
+        if not b.conc(): raise Unsupported('text of a symbolic boolean')
+        return b'true' if b.v else b'false'
+    if k=='Number':
+        n=v.f[0].f[0]
+        if n.vname=='Float' or not n.f[0].conc(): raise Unsupported('text of a symbolic / float number')
+        return str(n.f[0].signed_val() if n.vname=='NegInt' else n.f[0].v).encode()
+    if k=='String':
+        so=deref(v.f[0])
+        if getattr(so,'taint',False) or not all(isinstance(x,int) for x in so.b): raise Unsupported('text of a symbolic string')
+        return _j.dumps(bytes(so.b).decode(),ensure_ascii=False).encode()
+    nl=(b'\n'+b'  '*(ind+1)) if pretty else b''; end=(b'\n'+b'  '*ind) if pretty else b''
+    if k=='Array':
+        items=[json_text(x,pretty,ind+1) for x in deref(v.f[0]).items]
+        if not items: return b'[]'
+        return b'['+nl+((b','+nl).join(items))+end+b']'
+    if k=='Object':
+        ents=[]
+        for kk,x in deref(v.f[0]).e:
+            kb=deref(kk).b
+            if not all(isinstance(c,int) for c in kb): raise Unsupported('text of a symbolic member name')
+            ents.append(_j.dumps(bytes(kb).decode(),ensure_ascii=False).encode()+(b': ' if pretty else b':')+json_text(x,pretty,ind+1))
+        if not ents: return b'{}'
+        return b'{'+nl+((b','+nl).join(ents))+end+b'}'
+    raise Unsupported('json text of '+str(k))
+def _tree_of(e,run,x):
+    from .models_de import value_tree
+    d=deref(x)
+    # a `serde_json::Value` argument is a tree (members in key order); any other Serialize value is written in the order its
+    # Serialize impl emits (struct fields as declared, HashMap entries in iteration order)
+    if isinstance(d,Agg) and d.ty=='serde_json::Value': return value_tree(run,d)
+    return ser_value(e,run,x)
+def m_json_to_text(pretty,kind):
+    def m(e,run,a,f):
+        try: t=_tree_of(e,run,a[-1])
+        except SerError as se: return err(se.v)
+        bs=json_text(t,pretty)
+        if kind=='string': return ok(mk_string(bs.decode()))
+        if kind=='vec': return ok(u8vec(list(bs)))
+        w=deref(a[0])
+        if not isinstance(w,VecO): raise Unsupported('serde_json::to_writer into '+repr(w)[:40])
+        w.items.extend(Int(8,False,c) for c in bs); return ok(UNIT)
+    return m
 def m_ser_error_custom(e,run,a,f): return Opaque('serde_json::Error','custom')
 def m_json_error_into(e,run,a,f):
     from .build import B
@@ -141,5 +193,7 @@ def register(E):
     M(r' as Serialize(Seq|Tuple|TupleStruct)>::serialize_(element|field)$',W(m_seq_element)); M(r' as Serialize(Seq|Tuple|TupleStruct)>::end$',W(m_seq_end))
     M(r' as (crypto::_::_serde::|serde::)?Serialize>::serialize$',W(m_std_serialize))
     M(r'^(serde_json::)?to_value$',W(m_to_value))
+    M(r'^(serde_json::)?to_writer$',m_json_to_text(False,'writer')); M(r'^(serde_json::)?to_writer_pretty$',m_json_to_text(True,'writer'))
+    M(r'^(serde_json::)?to_vec$',m_json_to_text(False,'vec')); M(r'^(serde_json::)?to_vec_pretty$',m_json_to_text(True,'vec'))
     M(r' as (crypto::_::_serde::|serde::)?ser::Error>::custom$',m_ser_error_custom)
     M(r'^<serde_json::Error as Into<error::Error>>::into$',m_json_error_into)
